@@ -35,6 +35,8 @@ def build_harness(crate='llharness', dev=False):
         return ll, so
     with common.Lock('harness-' + crate + ('-dev' if dev else '')):
         shutil.copyfile(os.path.join(common.REPO, 'Cargo.lock'), os.path.join(d, 'Cargo.lock'))
+        if crate == 'llharness':
+            gen_tokens_table(os.path.join(d, 'src', 'tokens_table.rs'))
         extra = {'RUSTUP_TOOLCHAIN': TOOLCHAIN}
         if dev:
             extra['CARGO_PROFILE_RELEASE_DEBUG_ASSERTIONS'] = 'true'
@@ -46,6 +48,26 @@ def build_harness(crate='llharness', dev=False):
             raise Inconclusive('building %s from %s failed:\n%s' % (crate, common.REPO, p.stderr[-3000:]))
         common.log('[build] %s%s built in %.1fs' % (crate, ' (dev profile)' if dev else '', time.time() - t0))
     return ll, so
+
+
+def gen_tokens_table(path):
+    """fixed-spelling token kinds from /repo/tokenizer.txt (`Name = 'text'` lines) as a Rust table"""
+    import re
+    rows = []
+    for line in open(os.path.join(common.REPO, 'tokenizer.txt')):
+        m = re.match(r"^([A-Za-z]\w*)\s*=\s*'(.*?)'\s*(\|=>.*)?$", line.strip())
+        if m:
+            rows.append((m.group(1), m.group(2)))
+    out = ['// generated from tokenizer.txt by lib/llcheck.py; do not edit', 'use syntax::TokenKind as T;', '',
+           'pub fn fixed_text(k: T) -> Option<&\'static str> {', '    match k {']
+    for n, t in rows:
+        out.append('        T::%s => Some(%s),' % (n, json.dumps(t)))
+    out += ['        _ => None,', '    }', '}', '', 'pub fn is_fixed_spelling(t: &str) -> bool {',
+            '    matches!(t, %s)' % ' | '.join(json.dumps(t) for _, t in rows), '}', '']
+    new = '\n'.join(out)
+    if not os.path.exists(path) or open(path).read() != new:
+        with open(path, 'w') as fh:
+            fh.write(new)
 
 
 _MODULES = {}
